@@ -115,8 +115,11 @@ class Adapter(IAdapter, Input, Output, ABC):
         meta = {
             "name": self.name,
             "class": self.__class__.__module__ + "." + self.__class__.__qualname__,
-            "out_info": self._output_info.as_dict(),
         }
+
+        # an adapter without any input behind it never exchanges its info
+        if self._output_info is not None:
+            meta["out_info"] = self._output_info.as_dict()
 
         if self._input_info is not None:
             meta["in_info"] = self._input_info.as_dict()
